@@ -15,6 +15,7 @@ import (
 	"io"
 	"runtime/debug"
 	"sort"
+	"strings"
 	"sync/atomic"
 	"time"
 
@@ -45,8 +46,37 @@ type countingDAG struct{ ipld.DAGService }
 // with a context that is already done fails with ctx.Err() (returned unwrapped,
 // as the in-tree services do), so a reader that keeps walking with the
 // cancelled context of an earlier CtxReadFull call cannot succeed by accident.
+// Transient faults: when armed with k >= 0, the (k+1)-th next Get/GetMany call
+// fails once with errInjected; afterwards the service is healthy again.
+var (
+	faultCountdown atomic.Int64 // < 0: disarmed
+	faultsFired    atomic.Int64
+	errInjected    = errors.New("verif-injected block fetch failure")
+	errSink        = errors.New("verif-injected sink failure")
+)
+
+func init() { faultCountdown.Store(-1) }
+
+func faultNow() bool {
+	if faultCountdown.Load() < 0 {
+		return false
+	}
+	if faultCountdown.Add(-1) == -1 {
+		faultsFired.Add(1)
+		return true
+	}
+	return false
+}
+
+func isInjected(err error) bool {
+	return err != nil && (errors.Is(err, errInjected) || strings.Contains(err.Error(), errInjected.Error()))
+}
+
 func (c countingDAG) Get(ctx context.Context, k cid.Cid) (ipld.Node, error) {
 	progress.Add(1)
+	if faultNow() {
+		return nil, errInjected
+	}
 	if err := ctx.Err(); err != nil {
 		deadCtxRequests.Add(1)
 		return nil, err
@@ -57,6 +87,11 @@ func (c countingDAG) Get(ctx context.Context, k cid.Cid) (ipld.Node, error) {
 func (c countingDAG) GetMany(ctx context.Context, ks []cid.Cid) <-chan *ipld.NodeOption {
 	progress.Add(1)
 	out := make(chan *ipld.NodeOption, len(ks)+1)
+	if faultNow() {
+		out <- &ipld.NodeOption{Err: errInjected}
+		close(out)
+		return out
+	}
 	if err := ctx.Err(); err != nil {
 		deadCtxRequests.Add(1)
 		out <- &ipld.NodeOption{Err: err}
@@ -85,6 +120,17 @@ func run(c *vlib.Ctx) {
 	c.Rule("histories of 6-30 ops {Read(buf 0..2x chunk, sometimes > file), CtxReadFull (per-call context cancelled right after the call; the DAG service fails requests made with a done context), Seek(target in [-size-2, size+66] via SeekStart/SeekCurrent/SeekEnd, rare invalid whence), WriteTo} on a DagReader over (a) importer-built files: balanced|trickle x width 2..8 (sometimes 174) x size-N/rabin chunker x raw|dag-pb leaves x CID v0/v1/blake2b, length 0 .. 256 KiB quick / 4 MiB thorough incl. chunk and width^depth boundaries +-1; (b) DAGs produced by DagModifier sessions (overwrite, append, sparse extension, truncation); distinct = FNV of config + op list; non-trivial = DAG depth >= 2 and a Seek that lands strictly inside the leaf that is currently partially consumed")
 	c.Cases("importer", c.N(2200, 10000), func(k *vlib.Case) { oneCase(k, false) })
 	c.Cases("modifier-dag", c.N(800, 3000), func(k *vlib.Case) { oneCase(k, true) })
+	// fault stratum: transient block-fetch failures during Seek/Read/CtxReadFull/
+	// WriteTo and sinks that reject one Write. An operation that reported the
+	// injected error may have consumed a correct prefix; after the fault has
+	// healed, Seek(SeekStart, x) (often a retry of the failed seek) and all later
+	// operations must match the model exactly. A WriteTo whose sink failed must
+	// have delivered a correct prefix and leave the reader right behind it.
+	c.Cases("fault", c.N(1000, 4000), func(k *vlib.Case) {
+		faultMode = true
+		defer func() { faultMode = false }()
+		oneCase(k, k.R.Chance(1, 4))
+	})
 }
 
 var prefixes = []struct {
@@ -96,7 +142,12 @@ var prefixes = []struct {
 	{"v1-blake2b", cid.Prefix{Version: 1, Codec: cid.DagProtobuf, MhType: mh.BLAKE2B_MIN + 31, MhLength: -1}},
 }
 
+var faultMode bool
+
 type world struct {
+	lost      bool  // position unknown after an operation that reported an injected fault
+	retrySeek int64 // target of a seek that failed on an injected fault (-1: none)
+
 	k       *vlib.Case
 	r       *vlib.Rand
 	ctx     context.Context
@@ -336,14 +387,30 @@ func oneCase(k *vlib.Case, fromModifier bool) {
 		k.Fail("size", "Size()==len(content)", fmt.Sprint(len(content)), fmt.Sprint(dr.Size()))
 	}
 
+	w.retrySeek = -1
 	nops := r.Range(6, 30)
 	for i := 0; i < nops && !k.Failed() && !k.C.Aborted(); i++ {
+		if faultMode {
+			faultCountdown.Store(-1) // faults are armed for exactly one operation
+			if w.lost {
+				w.resync()
+				continue
+			}
+			if r.Chance(1, 3) {
+				if r.Chance(1, 3) {
+					w.opWriteToFailingSink(r.Range(0, 4))
+					continue
+				}
+				k.Logf("arm: one of the next 1-3 block requests fails once")
+				faultCountdown.Store(int64(r.Range(0, 2)))
+			}
+		}
 		switch x := r.Intn(100); {
 		case x < 32:
 			w.opRead(w.pickBuf(), false)
 		case x < 46:
 			w.opRead(w.pickBuf(), true)
-			if r.Chance(1, 5) && !k.Failed() && !k.C.Aborted() {
+			if r.Chance(1, 5) && !w.lost && !k.Failed() && !k.C.Aborted() {
 				w.opWriteTo() // first walking operation after the cancelled per-call context
 				i++
 			}
@@ -353,6 +420,11 @@ func oneCase(k *vlib.Case, fromModifier bool) {
 			w.opWriteTo()
 		}
 	}
+	faultCountdown.Store(-1)
+	if w.lost && !k.Failed() && !k.C.Aborted() {
+		w.resync()
+	}
+	k.C.Count("faults_fired", faultsFired.Swap(0))
 	// closing observation: whatever remains must be exactly the tail
 	if !k.Failed() && !k.C.Aborted() {
 		if r.Bool() {
@@ -494,10 +566,21 @@ func (w *world) opRead(n int, full bool) {
 	if o.bad() {
 		return
 	}
+	faultCountdown.Store(-1)
 	remaining := w.remaining()
 	want := int64(n)
 	if remaining < want {
 		want = remaining
+	}
+	if faultMode && isInjected(o.err) {
+		// the call reported the fault: what it delivered must be a correct prefix
+		if o.n < 0 || o.n > want || !bytes.Equal(buf[:o.n], w.content[w.off:w.off+o.n]) {
+			w.k.Fail("fault/read-prefix", "bytes delivered before a fetch fault are a correct prefix", hex(w.content[w.off:w.off+want]), fmt.Sprintf("n=%d %s", o.n, hex(buf[:max64(0, min64(o.n, int64(n)))])))
+			return
+		}
+		w.k.C.Count("ops_reporting_injected_fault", 1)
+		w.lost = true
+		return
 	}
 	if o.err != nil && !errors.Is(o.err, io.EOF) && !(full && errors.Is(o.err, io.ErrUnexpectedEOF)) {
 		w.k.Fail("read-error", "only EOF may be signalled", "nil or io.EOF", fmt.Sprintf("n=%d err=%v", o.n, o.err))
@@ -604,7 +687,16 @@ func (w *world) opSeek() {
 	}
 	w.k.Logf("Seek off=%d whence=%s   [model off=%d size=%d target=%d]", off, []string{"Start", "Current", "End"}[whence], w.off, sz, target)
 	o := w.do("Seek", func(o *obs) { o.n, o.err = w.dr.Seek(off, whence) })
+	faultCountdown.Store(-1)
 	if o.bad() {
+		return
+	}
+	if faultMode && isInjected(o.err) {
+		w.k.C.Count("ops_reporting_injected_fault", 1)
+		w.lost = true
+		if target >= 0 {
+			w.retrySeek = target
+		}
 		return
 	}
 	if target < 0 {
@@ -641,10 +733,21 @@ func (w *world) opWriteTo() {
 	w.k.Logf("WriteTo   [model off=%d size=%d]", w.off, w.size())
 	cw := &countingWriter{}
 	o := w.do("WriteTo", func(o *obs) { o.n, o.err = w.dr.WriteTo(cw) })
+	faultCountdown.Store(-1)
 	if o.bad() {
 		return
 	}
 	rem := w.remaining()
+	if faultMode && isInjected(o.err) {
+		got := cw.buf.Bytes()
+		if int64(len(got)) > rem || !bytes.Equal(got, w.content[min64(w.off, w.size()):min64(w.off, w.size())+int64(len(got))]) {
+			w.k.Fail("fault/writeto-prefix", "bytes written before a fetch fault are a correct prefix of the remainder", hex(w.content[min64(w.off, w.size()):]), fmt.Sprintf("%d bytes %s", len(got), hex(got)))
+			return
+		}
+		w.k.C.Count("ops_reporting_injected_fault", 1)
+		w.lost = true
+		return
+	}
 	if o.err != nil {
 		w.k.Fail("writeto-error", "WriteTo succeeds", "nil", o.err.Error())
 		return
@@ -661,6 +764,93 @@ func (w *world) opWriteTo() {
 	if w.off < w.size() {
 		w.off = w.size()
 	}
+}
+
+// resync repositions the reader with an absolute seek after an operation that
+// reported an injected fault (the service is healthy again). Two times out of
+// three after a failed seek it retries exactly that seek.
+func (w *world) resync() {
+	r := w.r
+	w.ops++
+	x := int64(r.Range(0, int(w.size())))
+	if w.retrySeek >= 0 && r.Chance(2, 3) {
+		x = w.retrySeek
+	}
+	w.retrySeek = -1
+	w.k.Logf("Seek off=%d whence=Start (after the fault healed)   [size=%d]", x, w.size())
+	o := w.do("Seek", func(o *obs) { o.n, o.err = w.dr.Seek(x, io.SeekStart) })
+	if o.bad() {
+		return
+	}
+	if o.err != nil || o.n != x {
+		w.k.Fail("fault/seek-after-heal", "Seek(SeekStart, x) succeeds once the store is healthy", fmt.Sprintf("%d, nil", x), fmt.Sprintf("%d, %v", o.n, o.err))
+		return
+	}
+	w.off = x
+	w.lost = false
+}
+
+// failingWriter rejects the Write call with index failAt (accepting nothing).
+type failingWriter struct {
+	buf    bytes.Buffer
+	calls  int
+	failAt int
+	failed bool
+}
+
+func (f *failingWriter) Write(p []byte) (int, error) {
+	if f.calls == f.failAt {
+		f.calls++
+		f.failed = true
+		return 0, errSink
+	}
+	f.calls++
+	return f.buf.Write(p)
+}
+
+func (w *world) opWriteToFailingSink(failAt int) {
+	w.ops++
+	w.k.Logf("WriteTo (sink rejects Write call #%d)   [model off=%d size=%d]", failAt, w.off, w.size())
+	fw := &failingWriter{failAt: failAt}
+	o := w.do("WriteTo", func(o *obs) { o.n, o.err = w.dr.WriteTo(fw) })
+	if o.bad() {
+		return
+	}
+	rem := w.remaining()
+	start := min64(w.off, w.size())
+	got := fw.buf.Bytes()
+	if !fw.failed { // the remainder needed fewer Write calls: ordinary WriteTo
+		if o.err != nil || o.n != rem || int64(len(got)) != rem || !bytes.Equal(got, w.content[start:]) {
+			w.k.Fail("writeto-bytes", "WriteTo writes exactly the remainder", fmt.Sprintf("%d bytes, nil", rem), fmt.Sprintf("%d bytes n=%d err=%v", len(got), o.n, o.err))
+			return
+		}
+		if w.off < w.size() {
+			w.off = w.size()
+		}
+		return
+	}
+	w.k.C.Count("sink_failures", 1)
+	if o.err == nil || !strings.Contains(o.err.Error(), errSink.Error()) {
+		w.k.Fail("sinkfail/error-reported", "WriteTo reports the writer's error", errSink.Error(), fmt.Sprint(o.err))
+		return
+	}
+	if int64(len(got)) > rem || !bytes.Equal(got, w.content[start:start+int64(len(got))]) {
+		w.k.Fail("sinkfail/prefix", "bytes accepted by the writer are a correct prefix of the remainder", hex(w.content[start:]), fmt.Sprintf("%d bytes %s", len(got), hex(got)))
+		return
+	}
+	if o.n != int64(len(got)) {
+		w.k.Fail("sinkfail/n", "WriteTo returns the number of bytes the writer accepted", fmt.Sprint(len(got)), fmt.Sprint(o.n))
+		return
+	}
+	// the reader stands right behind the accepted bytes: checked by the following operations
+	w.off += int64(len(got))
+}
+
+func max64(a, b int64) int64 {
+	if a > b {
+		return a
+	}
+	return b
 }
 
 func min64(a, b int64) int64 {
